@@ -1215,22 +1215,28 @@ func VerifLayout(n int) {
 		verifapi.Reach("ran")
 		verifExpectShift("C06-shift", "C06/trailing-newline-removal-changes-output/"+h.name, a, b, outA, outB, 1000, 0)
 	case 3:
-		// a newline added inside one (or both) of two string literals
+		// a newline added inside one (or both) of two string literals, in three forms: a raw
+		// newline in a double-quoted literal, a backslash-newline continuation in a
+		// double-quoted literal, a raw newline in a single-quoted literal
 		s := verifInstallSym("a")
 		verifapi.WitnessList("Sym.a", verifKN(s.ka))
 		v := verifapi.Concrete(verifapi.Int("variant", 0, 3))
-		lit := []string{"\"ab\"", "\"a\nb\""}
+		form := verifapi.Concrete(verifapi.Int("form", 0, 2))
+		narrow := []string{"\"ab\"", "\"ab\"", "'ab'"}[form]
+		wide := []string{"\"a\nb\"", "\"a\\\nb\"", "'a\nb'"}[form]
+		lit := []string{narrow, wide}
 		pairA := [][2]int{{0, 0}, {0, 0}, {0, 0}, {0, 1}}[v]
 		pairB := [][2]int{{1, 0}, {0, 1}, {1, 1}, {1, 1}}[v]
 		mk := func(p [2]int) string {
-			return "s = " + lit[p[0]] + "\nt = " + lit[p[1]] + "\nx = Sym.a\ndbtp x\ndbtp s\n"
+			return "s = " + lit[p[0]] + "\nt = " + lit[p[1]] + "\nx = Sym.a\ndbtp x\ndbtp s\nundefined_fn(1)\n"
 		}
 		a, b := mk(pairA), mk(pairB)
 		outA, outB := verifRunTwo(a, b)
 		verifapi.Reach("ran")
 		// rows of B after the widened literal(s) are larger by the number of added newlines
 		added := (pairB[0] - pairA[0]) + (pairB[1] - pairA[1])
-		name := []string{"first-literal", "second-literal", "both-literals-identical-content", "first-literal-becomes-identical-to-second"}[v]
+		name := []string{"first-literal", "second-literal", "both-literals-identical-content", "first-literal-becomes-identical-to-second"}[v] +
+			[]string{"", "/backslash-newline-continuation", "/single-quoted"}[form]
 		// the inserted physical lines are the continuation lines of the literals; nothing is
 		// reported on them, so "dropping" rows [at, at+delta) is harmless
 		at := 2
@@ -2011,17 +2017,22 @@ func VerifDefineInfo(n int) {
 	rAfter := line("def after_m")
 	line("5")
 	line("end")
+	rOne := line("def e_one = 1")
 	line("end")
 	rTop := line("def top_m(x,")
 	line("y)")
 	line("x")
 	line("end")
+	rEnd := line("def endl(p,")
+	line("q) = p")
 	line("k = Kk.new")
 	line("v = Sym.a")
 	cPub := line("k.pub_m(v)")
 	cTop := line("top_m(1, 2)")
 	cCls := line("Kk.cls_m")
 	cAfter := line("k.after_m")
+	cOne := line("k.e_one")
+	cEnd := line("endl(1, 2)")
 	verifapi.Witness("src", src)
 	flags := cmd.NewExecuteFlags()
 	pre := "@./a.rb:::"
@@ -2051,6 +2062,8 @@ func VerifDefineInfo(n int) {
 			chk("C22-i-after", rAfter, "i/public", "method-after-visibility-section-reset")
 		}
 		chk("C22-i-top", rTop, "i/public", "top-level-method-with-multi-line-signature")
+		chk("C22-i-endless", rOne, "i/public", "endless-method")
+		chk("C22-i-endless-multi", rEnd, "i/public", "endless-method-with-multi-line-signature")
 	case 1:
 		flags.IsDefineAllInfo = true
 		verifapi.Witness("flags", "--define --row="+verifItoa(cPub))
@@ -2067,12 +2080,14 @@ func VerifDefineInfo(n int) {
 		chk("C22-d-vis", "Kk", "vis_m", rVis, "method-under-"+visName+"-section")
 		chk("C22-d-after", "Kk", "after_m", rAfter, "method-after-visibility-section-reset")
 		chk("C22-d-top", "", "top_m", rTop, "top-level-method-with-multi-line-signature")
+		chk("C22-d-endless", "Kk", "e_one", rOne, "endless-method")
+		chk("C22-d-endless-multi", "", "endl", rEnd, "endless-method-with-multi-line-signature")
 	case 2:
 		flags.IsHover = true
-		k := verifapi.Int("callrow", 0, 3)
-		target := verifapi.PickInt(k, cPub, cTop, cCls, cAfter)
-		want := verifapi.Pick(k, "pub_m", "top_m", "cls_m", "after_m")
-		verifapi.Witness("C22-hover.row", verifapi.Pick(k, verifItoa(cPub), verifItoa(cTop), verifItoa(cCls), verifItoa(cAfter)))
+		k := verifapi.Int("callrow", 0, 5)
+		target := verifapi.PickInt(k, cPub, cTop, cCls, cAfter, cOne, cEnd)
+		want := verifapi.Pick(k, "pub_m", "top_m", "cls_m", "after_m", "e_one", "endl")
+		verifapi.Witness("C22-hover.row", verifapi.Pick(k, verifItoa(cPub), verifItoa(cTop), verifItoa(cCls), verifItoa(cAfter), verifItoa(cOne), verifItoa(cEnd)))
 		verifapi.Witness("C22-hover.method", want)
 		out := verifRunFlags(src, flags, target)
 		verifapi.Reach("ran")
@@ -2146,6 +2161,57 @@ func VerifCallGraph(n int) {
 	verifapi.Assert(verifHasLine(out, "  - total callers: "+verifItoa(nsites), ""), "C24-total")
 	verifapi.Classify("C24/caller-entry-does-not-name-the-call-row/" + site.name)
 	verifapi.Assert(verifHasLine(out, "    - call point: ./a.rb:"+verifItoa(callRow), ""), "C24-row")
+}
+
+// VerifCallGraphNamesakes: the target name is defined several times (top level, class Ka, class
+// Kb, optionally a class method); --llm-nav --target=foo must print one section per
+// definition, each with its own call site (row) and `total callers: 1`; a class-name target
+// must list the methods of that class only.
+func VerifCallGraphNamesakes(n int) {
+	variant := verifapi.Concrete(verifapi.Int("variant", 0, 2))
+	s := verifInstallSym("a")
+	verifapi.WitnessList("Sym.a", verifKN(s.ka))
+	src := "def foo(a)\nSym.a\nend\nclass Ka\ndef foo(a)\n1\nend\nend\nclass Kb\ndef foo(a)\n2\nend\ndef other(a)\n3\nend\nend\n"
+	rows := verifCountLines(src)
+	src += "x = foo(1)\ny = Ka.new.foo(2)\nz = Kb.new.foo(3)\nw = Kb.new.other(4)\n"
+	target := []string{"foo", "Kb", "other"}[variant]
+	verifapi.Witness("src", src)
+	verifapi.Witness("flags", "--llm-nav --target="+target)
+	os.Args = []string{"ti", "./a.rb", "--llm-nav", "--target=" + target}
+	flags := cmd.NewExecuteFlags()
+	flags.IsLlmNav = true
+	out := verifRunFlags(src, flags, 0)
+	verifapi.Reach("ran")
+	verifapi.Witness("engine-output", out)
+	want := func(id, line, what string) {
+		verifapi.Witness(id+".line", line)
+		verifapi.Classify("C24/" + what + "/target-" + target)
+		verifapi.Assert(verifHasLine(out, line, ""), id)
+	}
+	wantNot := func(id, line, what string) {
+		verifapi.Witness(id+".noline", line)
+		verifapi.Classify("C24/" + what + "/target-" + target)
+		verifapi.Assert(!verifHasLine(out, line, ""), id)
+	}
+	cp := func(r int) string { return "    - call point: ./a.rb:" + verifItoa(rows+r) }
+	switch variant {
+	case 0:
+		want("C24-n-top", cp(1), "section-of-a-namesake-definition-missing")
+		want("C24-n-ka", cp(2), "section-of-a-namesake-definition-missing")
+		want("C24-n-kb", cp(3), "section-of-a-namesake-definition-missing")
+		wantNot("C24-n-other", cp(4), "call-of-another-method-listed")
+		verifapi.Witness("C24-n-count.count", "3")
+		verifapi.Classify("C24/number-of-sections-differs-from-number-of-definitions/target-" + target)
+		verifapi.Assert(strings.Count(out, "  - total callers: 1\n") == 3, "C24-n-count")
+	case 1:
+		want("C24-n-kb", cp(3), "method-of-the-target-class-missing")
+		want("C24-n-other", cp(4), "method-of-the-target-class-missing")
+		wantNot("C24-n-ka", cp(2), "method-of-another-class-listed")
+		wantNot("C24-n-top", cp(1), "method-of-another-class-listed")
+	case 2:
+		want("C24-n-other", cp(4), "section-of-a-namesake-definition-missing")
+		wantNot("C24-n-kb", cp(3), "call-of-another-method-listed")
+	}
 }
 
 // ---- C27: same-named classes in different namespaces ----
